@@ -68,7 +68,8 @@ Start ==
     cnt |-> <<>>, tof |-> <<>>, seqc |-> <<>>, turn |-> -1, st |-> "run", err |-> "", ret |-> [t |-> "void"],
     safe |-> FALSE,
     dirty |-> {},         \* globals that were given a different value since the current continue began (for observers)
-    touched |-> {} ]      \* globals that were assigned at all since then
+    touched |-> {},       \* globals that were assigned at all since then
+    calls |-> <<>> ]      \* the calls of external functions so far, [f, args]
 
 Get(f, k, d) == IF k \in DOMAIN f THEN f[k] ELSE d
 Put(f, k, v) == (k :> v) @@ f
@@ -193,30 +194,34 @@ Assign(m, x, v) ==
   ELSE [m EXCEPT !.vars = Put(m.vars, x, v), !.touched = m.touched \cup {x},
                  !.dirty = IF x \in DOMAIN m.vars /\ m.vars[x] = v THEN m.dirty ELSE m.dirty \cup {x}]
 
+\* the value v of a call (of a function of the story, or of an external function of the host) reaches the place the call
+\* stands at - printed, assigned, or dropped; for a call that is an operand, the expression around it is evaluated with
+\* the value as the variable "$ret".  m1: the machine with the caller on top.
+Deliver(m1, cont, v) ==
+  LET c == CurAct(m1)
+      withRet == SetAct(m1, [c EXCEPT !.temps = Put(c.temps, "$ret", v)])
+      ev == IF cont.mode \in {"printexpr", "setexpr", "tempexpr"} THEN Eval(withRet, cont.e) ELSE v IN
+  CASE cont.mode = "print" -> IF v.t = "void" THEN m1 ELSE Emit(m1, O!T(ValChars(v)))
+    [] cont.mode = "set" -> Assign(m1, cont.x, v)
+    [] cont.mode = "printexpr" -> IF ev.t = "error" THEN Fail(m1, ev.v) ELSE Emit(m1, O!T(ValChars(ev)))
+    [] cont.mode = "setexpr" -> IF ev.t = "error" THEN Fail(m1, ev.v) ELSE Assign(m1, cont.x, ev)
+    [] cont.mode = "temp" -> SetAct(m1, [c EXCEPT !.temps = Put(c.temps, cont.x, v)])
+    [] cont.mode = "tempexpr" -> IF ev.t = "error" THEN Fail(m1, ev.v) ELSE SetAct(m1, [c EXCEPT !.temps = Put(c.temps, cont.x, ev)])
+    [] OTHER -> m1
+
 \* a function call ends with value v (void: nothing): whitespace it produced at its end is dropped, the caller goes on
-\* with the value - printed, assigned or dropped
+\* with the value
 FnReturn(m, v) ==
   LET t == CurThread(m)
       a == Head(t)
       \* (trimmed back to where the function started, or - once the function has printed real text, which ends the
       \* start trimming - simply back to the last real text)
-      m1 == SetThread([m EXCEPT !.out = O!TrimFunctionEnd(m.out, IF a.fnStart = 0 THEN 1 ELSE a.fnStart)], Tail(t))
-      \* the caller's expression around the call: the returned value is the variable "$ret" in it
-      withRet == IF Tail(t) = <<>> THEN m1
-                 ELSE LET c == Head(Tail(t)) IN SetAct(m1, [c EXCEPT !.temps = Put(c.temps, "$ret", v)])
-      ev == IF a.cont.mode \in {"printexpr", "setexpr", "tempexpr"} THEN Eval(withRet, a.cont.e) ELSE v IN
-  CASE a.cont.mode = "game" ->
-         \* a function evaluation started by the host: nothing is trimmed, the frame stays (without position) until the
-         \* host has taken the result
-         [SetThread(m, <<[a EXCEPT !.fr = <<>>]>> \o Tail(t)) EXCEPT !.ret = v, !.st = "stopping", !.safe = TRUE]
-    [] a.cont.mode = "print" -> IF v.t = "void" THEN m1 ELSE Emit(m1, O!T(ValChars(v)))
-    [] a.cont.mode = "set" -> Assign(m1, a.cont.x, v)
-    [] a.cont.mode = "printexpr" -> IF ev.t = "error" THEN Fail(m1, ev.v) ELSE Emit(m1, O!T(ValChars(ev)))
-    [] a.cont.mode = "setexpr" -> IF ev.t = "error" THEN Fail(m1, ev.v) ELSE Assign(m1, a.cont.x, ev)
-    [] a.cont.mode = "temp" -> LET c == CurAct(m1) IN SetAct(m1, [c EXCEPT !.temps = Put(c.temps, a.cont.x, v)])
-    [] a.cont.mode = "tempexpr" -> LET c == CurAct(m1) IN
-                                   IF ev.t = "error" THEN Fail(m1, ev.v) ELSE SetAct(m1, [c EXCEPT !.temps = Put(c.temps, a.cont.x, ev)])
-    [] OTHER -> m1
+      m1 == SetThread([m EXCEPT !.out = O!TrimFunctionEnd(m.out, IF a.fnStart = 0 THEN 1 ELSE a.fnStart)], Tail(t)) IN
+  IF a.cont.mode = "game"
+  THEN \* a function evaluation started by the host: nothing is trimmed, the frame stays (without position) until the
+       \* host has taken the result
+       [SetThread(m, <<[a EXCEPT !.fr = <<>>]>> \o Tail(t)) EXCEPT !.ret = v, !.st = "stopping", !.safe = TRUE]
+  ELSE Deliver(m1, a.cont, v)
 
 \* the body under execution is exhausted
 PopFrame(m) ==
@@ -248,6 +253,20 @@ GenChoices(m, cs, i, rest) ==
        IF condsOk /\ ~once THEN GenChoices([m EXCEPT !.ch = Append(m.ch, item)], cs, i + 1, rest)
        ELSE GenChoices(m, cs, i + 1, rest)
 
+\* a call of an external function: the host is handed the argument values in order (noted in m.calls) and answers with
+\* a value - here the linear function of its arguments that the test host implements
+RECURSIVE Lin(_, _, _, _)
+Lin(coef, vals, i, acc) ==
+  IF i > Len(vals) THEN acc
+  ELSE Lin(coef, vals, i + 1, Add32(acc, Mul32(IF i <= Len(coef) THEN coef[i] ELSE 1, IF vals[i].t = "int" THEN vals[i].v ELSE 0)))
+ExtCall(m, s) ==
+  LET x == Prog.externs[s.f]
+      vals == [i \in 1..Len(s.args) |-> Eval(m, s.args[i])]
+      v == I(Lin(x.coef, vals, 1, x.add))
+      m1 == Advance([m EXCEPT !.calls = Append(m.calls, [f |-> s.f, args |-> vals])]) IN
+  IF \E i \in 1..Len(vals) : vals[i].t = "error" THEN Fail(m, "argument")
+  ELSE Deliver(m1, [mode |-> s.mode, x |-> s.x, e |-> s.e], v)
+
 \* one statement
 Exec(m, s) ==
   CASE s.k = "s"   -> Advance(Emit(m, O!T(s.v)))
@@ -261,6 +280,7 @@ Exec(m, s) ==
     [] s.k = "call" -> \* f(args) as a statement (mode drop), printed (print), assigned (set / temp, x), or as an operand of
                       \* the expression e that is printed or assigned (printexpr / setexpr / tempexpr): e refers to the
                       \* returned value as the variable "$ret"
+                      IF s.f \in DOMAIN Prog.externs THEN ExtCall(m, s) ELSE
                       LET fn == Knot(s.f)
                           vals == [i \in 1..Len(s.args) |-> Eval(m, s.args[i])]
                           temps == [n \in {fn.params[i] : i \in 1..Len(fn.params)} |->
